@@ -100,3 +100,209 @@ def c18_random(rng, n):
         l = rand_vec(rng, 200 if rng.random() < 0.3 else 12, 50)
         cases.append("%s %s %s" % (rng.choice(("inj", "const", "par")), vec(l), rand_diff(rng, len(l), 50)))
     return cases
+
+
+# ---------------------------------------------------------------- adapters (mode adapt)
+def canon_vecs(maxlen):
+    return [list(range(1, n + 1)) for n in range(maxlen + 1)]
+
+
+def lts_single_step(kinds, maxlen, maxparam, bats=("u", "b"), include_bad=True):
+    """head/tail/skip: one source diff or one parameter change from every (vector, parameter) state,
+    in every flavour.  New items are 7/8; Append/Reset carry 0..3 items."""
+    cases = []
+    apps = ((), (7,), (7, 8), (7, 8, 9))
+    for kind in kinds:
+        for bat in bats:
+            for l in canon_vecs(maxlen):
+                n = len(l)
+                ds = diffs_for(n, newvals=(7,), appends=apps, slack=1)
+                for p in range(maxparam + 1):
+                    for d in ds:
+                        if not include_bad and not ok_in(d, n):
+                            continue
+                        cases.append("%s static %s %d %s :: d:%s ; D" % (kind, bat, p, vec(l), d))
+                        cases.append("%s dyninit %s %d %s :: d:%s ; D" % (kind, bat, p, vec(l), d))
+                        cases.append("%s dynamic %s - %s :: l:%d ; D ; d:%s ; D" % (kind, bat, vec(l), p, d))
+                    for q in range(maxparam + 1):
+                        cases.append("%s dyninit %s %d %s :: l:%d ; D" % (kind, bat, p, vec(l), q))
+                        cases.append("%s dynamic %s - %s :: l:%d ; D ; l:%d ; D" % (kind, bat, vec(l), p, q))
+                # before the first parameter value arrives
+                for d in ds:
+                    if ok_in(d, n):
+                        cases.append("%s dynamic %s - %s :: d:%s ; D ; l:2 ; D" % (kind, bat, vec(l), d))
+    return cases
+
+
+def filter_single_step(maxlen, bats=("u", "b")):
+    """filter/filter_map: every pass/fail assignment of the vector's items (mask bits 0..maxlen-1);
+    new items 6 (passes: bit 6 set) / 7 (fails)."""
+    cases = []
+    for kind in ("filter", "filter_map"):
+        for bat in bats:
+            for n in range(maxlen + 1):
+                l = list(range(n))
+                ds = []
+                for a in ((), (6,), (7,), (6, 7), (7, 6), (7, 7), (6, 7, 6)):
+                    ds.append("Append" + vec(a))
+                    ds.append("Reset" + vec(a))
+                ds += ["Clear", "PopFront", "PopBack"]
+                for x in (6, 7):
+                    ds += ["PushFront(%d)" % x, "PushBack(%d)" % x]
+                    for i in range(n + 1):
+                        ds.append("Insert(%d,%d)" % (i, x))
+                    for i in range(n):
+                        ds.append("Set(%d,%d)" % (i, x))
+                for i in range(n):
+                    ds.append("Remove(%d)" % i)
+                    ds.append("Truncate(%d)" % i)
+                for m in range(1 << n):
+                    mask = m | (1 << 6)
+                    for d in ds:
+                        cases.append("%s - %s %d %s :: d:%s ; D" % (kind, bat, mask, vec(l), d))
+    return cases
+
+
+def sort_single_step(maxlen, bats=("u", "b"), kinds=("sort", "sort_by", "sort_by_key")):
+    """sort*: every key assignment over {0,1,2} (all tie patterns); item = key*10 + position"""
+    cases = []
+    for kind in kinds:
+        for bat in bats:
+            for n in range(maxlen + 1):
+                for keys in itertools.product((0, 1, 2), repeat=n):
+                    l = [k * 10 + i for i, k in enumerate(keys)]
+                    ds = ["Clear", "PopFront", "PopBack"]
+                    for a in ((), (7,), (17,), (27, 8), (8, 27), (17, 7, 18), (28, 18, 8)):
+                        ds.append("Append" + vec(a))
+                        ds.append("Reset" + vec(a))
+                    for k in (0, 1, 2):
+                        x = k * 10 + 7
+                        ds += ["PushFront(%d)" % x, "PushBack(%d)" % x]
+                        for i in range(n + 1):
+                            ds.append("Insert(%d,%d)" % (i, x))
+                        for i in range(n):
+                            ds.append("Set(%d,%d)" % (i, x))
+                    for i in range(n):
+                        ds.append("Remove(%d)" % i)
+                        ds.append("Truncate(%d)" % i)
+                    for d in ds:
+                        if ok_in(d, n):
+                            cases.append("%s - %s - %s :: d:%s ; D" % (kind, bat, vec(l), d))
+    return cases
+
+
+def rand_adapt_history(rng, kind, nev, fresh):
+    """one random multi-step history.  `fresh()` yields a new element value."""
+    bat = rng.choice(("u", "b"))
+    is_lts = kind in ("head", "tail", "skip")
+    n0 = rng.randrange(6)
+    src = [fresh() for _ in range(n0)]
+    if is_lts:
+        flav = rng.choice(("static", "dyninit", "dynamic"))
+        arg = "-" if flav == "dynamic" else str(rng.randrange(8))
+    elif kind.startswith("filter"):
+        flav, arg = "-", str(rng.randrange(256))
+    else:
+        flav, arg = "-", "-"
+    head = "%s %s %s %s %s" % (kind, flav, bat, arg, vec(src))
+    evs = []
+    length = len(src)
+    ended = False
+
+    def one_diff():
+        nonlocal length
+        # mostly valid diffs; track the length
+        for _ in range(20):
+            k = rng.randrange(12)
+            if k == 0:
+                a = [fresh() for _ in range(rng.randrange(4))]
+                length += len(a)
+                return "Append" + vec(a)
+            if k == 1 and rng.random() < 0.4:
+                length = 0
+                return "Clear"
+            if k == 2:
+                length += 1
+                return "PushFront(%d)" % fresh()
+            if k in (3, 11):
+                length += 1
+                return "PushBack(%d)" % fresh()
+            if k == 4 and length > 0:
+                length -= 1
+                return "PopFront"
+            if k == 5 and length > 0:
+                length -= 1
+                return "PopBack"
+            if k == 6:
+                i = rng.randrange(length + 1)
+                length += 1
+                return "Insert(%d,%d)" % (i, fresh())
+            if k == 7 and length > 0:
+                return "Set(%d,%d)" % (rng.randrange(length), fresh())
+            if k == 8 and length > 0:
+                i = rng.randrange(length)
+                length -= 1
+                return "Remove(%d)" % i
+            if k == 9 and length > 0:
+                n = rng.randrange(length)
+                length = n
+                return "Truncate(%d)" % n
+            if k == 10 and rng.random() < 0.4:
+                a = [fresh() for _ in range(rng.randrange(5))]
+                length = len(a)
+                return "Reset" + vec(a)
+        length += 1
+        return "PushBack(%d)" % fresh()
+
+    sortk = kind.startswith("sort")
+    for _ in range(nev):
+        r = rng.random()
+        if ended:
+            break
+        if r < 0.45:
+            evs.append("d:" + one_diff())
+            if sortk or rng.random() < 0.6:
+                evs.append("D")
+        elif r < 0.6:
+            evs.append("b:" + "|".join(one_diff() for _ in range(rng.randrange(1, 5))))
+            if sortk or rng.random() < 0.6:
+                evs.append("D")
+        elif r < 0.78 and is_lts and flav != "static":
+            evs.append("l:%d" % rng.randrange(9))
+            if rng.random() < 0.5:
+                evs.append("D")
+        elif r < 0.9:
+            evs.append("p" if (rng.random() < 0.4 and not sortk) else "D")
+        elif r < 0.93 and is_lts and flav != "static":
+            evs.append("el")
+        elif r < 0.95:
+            evs.append("es")
+            evs.append("D")
+            ended = True
+        else:
+            evs.append("D")
+    evs.append("D")
+    return head + " :: " + " ; ".join(evs)
+
+
+def rand_adapt(rng, kinds, n, maxev=30):
+    cases = []
+    for _ in range(n):
+        kind = rng.choice(kinds)
+        if kind.startswith("sort"):
+            # distinct values so that ties are distinguishable: key*10 + uid, uid unique per key decade
+            used = set()
+            def fresh():
+                for _ in range(1000):
+                    v = rng.randrange(4) * 10 + rng.randrange(10)
+                    if v not in used:
+                        used.add(v)
+                        return v
+                v = 40 + len(used)
+                used.add(v)
+                return v
+        else:
+            def fresh():
+                return rng.randrange(40)
+        cases.append(rand_adapt_history(rng, kind, rng.randrange(3, maxev), fresh))
+    return cases
